@@ -23,4 +23,11 @@ def strOpFind (op : String) (s text : List Char) : Option (Option (Nat × Nat)) 
   else if op = "==" then some (if text = s then some (0, s.length) else none)
   else none
 
+/-- the Rust name of the constructor of a bracket atom (`parse_inner` picks it by the delimiter) -/
+def atomCtorName : BracketAtom → String
+  | .char _ => "Char"
+  | .collating _ => "CollatingSymbol"
+  | .equiv _ => "EquivalenceClass"
+  | .cls _ => "CharClass"
+
 end YashModel.Fnmatch
